@@ -15,9 +15,9 @@ CONSTANTS
   MaxFaults = 0
   Concurrent = FALSE
   WithRejects = TRUE
-  ExportOneIn = 1
+  ExportOneIn = 20
   RecoveryCrashes = FALSE
-  Batch = TRUE
+  Batch = FALSE
 INVARIANTS NoViolation CacheCounterExact ChunksAbut DurableIsPrefix Export 
 VIEW View
 ALIAS Alias
